@@ -22,6 +22,20 @@ def opcodes_valid(a, b, ops):
         ia, ib = a1, b1
     return ia == len(a) and ib == len(b)
 
+def judge_reuse(res, d, b):
+    """the in-memory diff applied twice (fresh base each time) must give the target both times and be unchanged afterwards"""
+    ru = res.get('reuse')
+    if not ru: return None, None
+    if 'err' in ru:
+        return 'in-memory-diff-reuse-raises:' + ru['err'].get('err', '?'), {'msg': ru['err'].get('msg')}
+    if not pyspec.strict_eq(ru['first'], b):
+        return 'in-memory-diff-first-application-mismatch', {'diff': d}
+    if not pyspec.strict_eq(ru['second'], b):
+        return 'diff-not-reusable:second-application-differs', {'diff': d, 'diff_after_use': ru['diff_after']}
+    if ru['diff_after'] != d:
+        return 'patch-modifies-the-diff', {'diff': d, 'diff_after_use': ru['diff_after']}
+    return None, None
+
 def judge(chk, case, res):
     """Evaluate the property on one implementation result.  Returns signature or None."""
     a, b = case['a'], case['b']
@@ -50,7 +64,7 @@ def judge(chk, case, res):
         return 'documented-semantics-disagrees', {'diff': d, 'spec_patched': sp}
     if d == [] and not pyspec.strict_eq(a, b):
         return 'empty-diff-for-different-documents', {'diff': d}
-    return None, None
+    return judge_reuse(res, d, b)
 
 def gen_cases(chk, tier):
     r = chk.rng
